@@ -918,7 +918,8 @@ func genCase(t *rapid.T, plugin string, maxOps int) caseSpec {
 		c.Cfg.Relevant = rapid.SampledFrom([][]int{{429}, {429, 503}, {429, 503, 500}}).Draw(t, "relevant")
 	}
 	keys := genKeyPool(t, plugin)
-	ins := rapid.SliceOfN(genIntent(plugin, big), 1, maxOps).Draw(t, "ops")
+	minOps := rapid.SampledFrom([]int{1, 4, 10, 20}).Draw(t, "minops") // rapid's default mean length is ~6
+	ins := rapid.SliceOfN(genIntent(plugin, big), minOps, maxOps).Draw(t, "ops")
 
 	now := int64(0)
 	bodyID := 0
